@@ -252,17 +252,20 @@ impl<T> OneShotShared<T> {
       // EMPTY or WRITING
       // If empty and all senders are gone, it's disconnected.
       if current_state == STATE_EMPTY && self.sender_count.load(Ordering::Acquire) == 0 {
-        // Attempt to transition to CLOSED if not already done by last sender drop
-        self
-          .state
-          .compare_exchange(
-            STATE_EMPTY,
-            STATE_CLOSED,
-            Ordering::Relaxed,
-            Ordering::Relaxed,
-          )
-          .ok();
-        Err(TryRecvError::Disconnected)
+        // Attempt to transition to CLOSED if not already done by last sender drop.
+        // `current_state` may be stale: a sender can have published its value and
+        // gone away between that load and the sender-count load. Only a successful
+        // (or already performed) EMPTY -> CLOSED transition proves that no value
+        // is coming; otherwise look again.
+        match self.state.compare_exchange(
+          STATE_EMPTY,
+          STATE_CLOSED,
+          Ordering::AcqRel,
+          Ordering::Acquire,
+        ) {
+          Ok(_) | Err(STATE_CLOSED) => Err(TryRecvError::Disconnected),
+          Err(_) => self.try_recv(),
+        }
       } else {
         Err(TryRecvError::Empty) // Not ready yet, or senders still active / writing
       }
@@ -293,16 +296,17 @@ impl<T> OneShotShared<T> {
           }
           // Check again if all senders dropped AFTER deciding it's Empty
           if current_state == STATE_EMPTY && self.sender_count.load(Ordering::Acquire) == 0 {
-            self
-              .state
-              .compare_exchange(
-                STATE_EMPTY,
-                STATE_CLOSED,
-                Ordering::Relaxed,
-                Ordering::Relaxed,
-              )
-              .ok();
-            return Poll::Ready(Err(RecvError::Disconnected));
+            // Same stale-read hazard as in `try_recv`: only Disconnected if the
+            // channel really is (or just became) CLOSED, otherwise start over.
+            match self.state.compare_exchange(
+              STATE_EMPTY,
+              STATE_CLOSED,
+              Ordering::AcqRel,
+              Ordering::Acquire,
+            ) {
+              Ok(_) | Err(STATE_CLOSED) => return Poll::Ready(Err(RecvError::Disconnected)),
+              Err(_) => continue,
+            }
           }
 
           self.receiver_waker.register(cx.waker());
